@@ -173,6 +173,8 @@ class C17(Monitor):
                     i += 1
                 a, b = self.small_shapes()[i], self.small_shapes()[i + rem]
                 return dict(a=[a[0], list(a[1])], b=[b[0], list(b[1])], seed=e, small=e, small_total=total)
+        if rnd.random() < 0.06:
+            return self.gen_extreme(rnd)
         mode = rnd.choice([0, 0, 1, 2, 3])
         a = ("rect", gen_rect(rnd, mode)) if rnd.random() < 0.5 else ("circ", gen_circ(rnd, mode))
         if rnd.random() < 0.75:
@@ -189,6 +191,33 @@ class C17(Monitor):
                                  triple=rnd.choice([(3, 4, 5), (5, 12, 13), (8, 15, 17), (7, 24, 25), (20, 21, 29)]))
         return case
 
+    @staticmethod
+    def gen_extreme(rnd):
+        """Legal but extreme magnitudes (squares overflow above ~1.3e154 and underflow below ~1.5e-162): a bed-sized or an
+        astronomic region against an astronomic one that is far away, around it, or tangent to it."""
+        m = rnd.choice([1e150, 1.5e154, 1e200, 1e300])
+        mode = rnd.choice([0, 1])
+        a = ("rect", gen_rect(rnd, mode)) if rnd.random() < 0.5 else ("circ", gen_circ(rnd, mode))
+        if rnd.random() < 0.3:
+            a = ("circ", [rnd.choice([0.0, m, -m]), 0.0, m * rnd.choice([0.5, 1.0])])
+        q = rnd.random()
+        ax, ay = a[1][0], a[1][1]
+        if q < 0.35:
+            b = ("circ", [ax + rnd.choice([3.0, -3.0, 2.0, 1.0]) * m, ay, m])
+        elif q < 0.55:
+            b = ("circ", [ax, ay, m * rnd.choice([1.0, 2.0])])
+        elif q < 0.75:
+            b = ("rect", [ax + m, ay - m, ax + 3 * m, ay + m])
+        elif q < 0.9:
+            b = ("rect", [-m, -m, m, m])
+        else:
+            t = rnd.choice([1e-170, 1e-200, 5e-324])
+            a = ("circ", [0.0, 0.0, t])
+            b = ("circ", [t * rnd.choice([1.0, 2.0, 0.0]), 0.0, t])
+        if rnd.random() < 0.5:
+            a, b = b, a
+        return dict(a=[a[0], list(a[1])], b=[b[0], list(b[1])], seed=rnd.randint(0, 10 ** 9), extreme=True)
+
     def check_case(self, case):
         import random
         rnd = random.Random(case["seed"])
@@ -204,6 +233,8 @@ class C17(Monitor):
         same = bool(case.get("seed", 0) % 2)
         ra, rb = mk(a, "a"), mk(b, "a" if same else "b")
         stats["pairs_same_id" if same else "pairs_distinct_ids"] += 1
+        if case.get("extreme"):
+            stats["pairs_extreme_magnitude"] += 1
         sets = collections.defaultdict(set)
         if "small" in case:
             sets["exhaustive_indices"].add(case["small"])
